@@ -98,9 +98,27 @@ impl<'a> Visitor for Op<'a> {
             // `dec <name> <Ty> <bits>` -> value, consumed
             "dec" => {
                 let (bytes, n) = string_to_bits(atom(a.get(1)?)?)?;
-                match decode::<T>(&bytes, n) {
+                let plain = match decode::<T>(&bytes, n) {
                     Ok((dump, consumed, _)) => format!("ok {dump} {consumed}"),
                     Err(k) => format!("err {k}"),
+                };
+                // the same declared bits inside a longer slice: one-bits behind the declared length
+                // (rest of the last octet and two more octets).  The answer must not depend on them.
+                let mut longer = bytes.clone();
+                if n % 8 != 0 {
+                    if let Some(last) = longer.last_mut() {
+                        *last |= 0xFFu8 >> (n % 8);
+                    }
+                }
+                longer.extend_from_slice(&[0xFF, 0xFF]);
+                let padded = match decode::<T>(&longer, n) {
+                    Ok((dump, consumed, _)) => format!("ok {dump} {consumed}"),
+                    Err(k) => format!("err {k}"),
+                };
+                if plain == padded {
+                    plain
+                } else {
+                    format!("beyond-differs [{plain}] [{padded}]")
                 }
             }
             // `xdec <name> <Ty> <Val> <bits>`: decode the X.691 encoding of <Val> -> value, consumed
